@@ -68,6 +68,52 @@ func init() {
 		}
 		return fmt.Sprintf("ok %s %d %s %s ex=%s ref=%s", hexs([]byte(p)), n, hexs([]byte(ast.Value)), oas, exok, ref)
 	}
+	// regexagain <hex>: ONE regex schema object asked several times, and registered as the type of two schemas:
+	// every answer must be the one a fresh object gives (C09: same input, same answer on every repetition;
+	// C10: the result does not depend on what was asked before).
+	handlers["regexagain"] = func(a []string) string {
+		b := unhex(a[0])
+		show := func(rs *regex.RSchema) string {
+			ex, err := rs.Example()
+			n, _ := rs.Len()
+			ast, _ := rs.GetAST()
+			oas := guard(func() string {
+				js, err := openapi.NewSchemaObject(rs).MarshalJSON()
+				if err != nil {
+					return "err"
+				}
+				return hexs(js)
+			})
+			return fmt.Sprintf("%s/%s/%d/%s/%s", errAtAny(err), hexs(ex), n, hexs([]byte(ast.Value)), oas)
+		}
+		ref := show(regex.New("r", append([]byte(nil), b...)))
+		one := regex.New("r", append([]byte(nil), b...))
+		for k := 0; k < 3; k++ {
+			if got := show(one); got != ref {
+				return fmt.Sprintf("DIFF call%d %s vs-fresh %s", k+1, got, ref)
+			}
+		}
+		// the same object as the type of two schemas
+		refEx := ""
+		for k := 0; k < 3; k++ {
+			js := jschema.New("root", `@r`)
+			t := one
+			if k == 0 {
+				t = regex.New("r", append([]byte(nil), b...))
+			}
+			if err := js.AddType("@r", t); err != nil {
+				return "same addtype:" + errAtAny(err)
+			}
+			ex, err := js.Example()
+			got := errAtAny(err) + "/" + hexs(ex)
+			if k == 0 {
+				refEx = got
+			} else if got != refEx {
+				return fmt.Sprintf("DIFF astype%d %s vs-fresh %s", k, got, refEx)
+			}
+		}
+		return "same"
+	}
 	_ = hex.EncodeToString
 	_ = strconv.Itoa
 }
